@@ -126,7 +126,9 @@ impl BrakingPoints {
                         self.points.push(BrakingPoint {
                             offset: bp_curr.offset - train_state.dt * speed_limit,
                             speed_limit,
-                            speed_target: bp_curr.speed_target,
+                            // the adopted profile limit may be lower than the speed this braking
+                            // curve leads down to: never aim above the limit in force
+                            speed_target: bp_curr.speed_target.min(speed_limit),
                         });
                         if bp_curr.speed_limit == speed_points[idx].speed_limit.abs() {
                             break;
